@@ -4,7 +4,7 @@
    setting).  Hence build roots are never "" or "/", and those of different layers are unrelated. *)
 From LC Require Import Lib.Bytes Lib.Lex Lib.Fields Lib.PathM Gen.Consts Model.Config
   Model.MountInfo Model.FsTree Model.Kernel Model.Layers
-  Proofs.PathP Proofs.KernelP Proofs.ProbeP Proofs.UmountAllP Proofs.C03P Cases.LC.
+  Proofs.PathP Proofs.KernelP Proofs.ProbeP Proofs.UmountAllP Proofs.C03P Proofs.LegalNameP Cases.LC.
 Import LC LCS.
 Open Scope N_scope.
 
@@ -81,16 +81,14 @@ Definition cfg_sane (c : cfgT) : bool := is_clean_abs (c_layers c) && plain_rel 
 (* legal layer names are plain components *)
 Lemma legal_rest_chars s : legal_rest s = true -> Forall (fun ch => bn ch <> 46 /\ bn ch <> 47) s.
 Proof.
-  induction s as [|ch s IH]; cbn [legal_rest]; [constructor|]. intros H. apply andb_true_iff in H as [H1 H2].
-  constructor; [|auto]. unfold is_alnum in H1. cbv zeta in H1.
-  repeat rewrite ?orb_true_iff, ?andb_true_iff, ?N.leb_le, ?N.eqb_eq in H1. lia.
+  intros H. apply legal_rest_bytes in H. eapply Forall_impl; [|exact H]. intros ch Hc. cbv beta in Hc.
+  destruct (name_byte_facts ch Hc) as (H47 & H46 & _). split; assumption.
 Qed.
 Lemma legal_plain n : legal_name n = true -> n <> [] -> plain n.
 Proof.
-  intros H Hne. destruct n as [|ch s]; [congruence|]. cbn [legal_name] in H. apply andb_true_iff in H as [H1 H2].
+  intros H Hne. destruct n as [|ch s]; [congruence|].
   assert (Hall : Forall (fun x => bn x <> 46 /\ bn x <> 47) (ch :: s)).
-  { constructor; [|now apply legal_rest_chars]. unfold is_alnum in H1. cbv zeta in H1.
-    repeat rewrite ?orb_true_iff, ?andb_true_iff, ?N.leb_le, ?N.eqb_eq in H1. lia. }
+  { apply legal_rest_chars, legal_name_rest, H. }
   assert (Hno : forall x, In x (ch :: s) -> bn x <> 46 /\ bn x <> 47) by (now apply Forall_forall).
   split; [discriminate|]. split; [|split].
   - intros E. injection E as -> _. destruct (Hno (nb 46) (or_introl eq_refl)) as [A _]. apply A. reflexivity.
